@@ -15,13 +15,16 @@ def main(tier, seed):
     jobs = [(T, dict(K=K, ls_mode="unit", kind=k)) for k in kinds]
     # faults of the objective / gradient INSIDE the real line search (SciPy DCSRCH tail cut as in C11)
     jobs += [(T, dict(K=1, ls_mode="real", kind=k, maxls=2)) for k in ("fun", "jac")]
+    # one-shot faults of the objective inside a finite-difference sweep (perturbed evaluations)
+    jobs += [(T, dict(K=1, ls_mode="unit", kind="fun", jac="2-point"))]
     if tier != "quick":
+        jobs += [(T, dict(K=2, ls_mode="unit", kind="fun", jac=j)) for j in ("3-point", "none")]
         jobs += [(T, dict(K=3, ls_mode="unit", kind=k)) for k in ("fun", "jac", "callback", "update")]
     exs = driver.explore_many(jobs, time_limit=1500 if tier == "quick" else 7200, timeout_ms=30000, max_paths=60000)
     for ex in exs:
         chk.add(ex)
         if ex.candidates:
-            rel_common.confirm(chk, ex, "scenario_fault", lambda p, m: dict(K=3, fault_kind=p["kind"]))
+            rel_common.confirm(chk, ex, "scenario_fault", lambda p, m: dict(K=3, fault_kind=p["kind"], jac=p.get("jac")))
     rel_common.finish_common(chk, exs[:2], "scenario_fault", lambda p, m: dict(K=3, fault_kind=p["kind"]), tier)
     chk.bounds = dict(K="2 (thorough 3)", fault_points="every call index of every explored run", exception_types=["TypeError", "IndexError", "ValueError", "AssertionError", "ZeroDivisionError", "KeyError", "RuntimeError subclass"], n=1)
     chk.outside.append("faults inside the stubbed kernels' own array accesses (the except IndexError of the Cauchy loop is exercised by C08's harness without faults)")
